@@ -17,7 +17,8 @@ import vcommon
 from vcommon import VERIF
 
 PROPS = ["Bee2V/C05/Props.lean", "Bee2V/C05/PropsAdd.lean", "Bee2V/C05/PropsMul.lean", "Bee2V/C05/PropsBits.lean",
-         "Bee2V/C05/PropsDiv.lean", "Bee2V/C05/PropsGcd.lean", "Bee2V/C05/PropsAlias.lean"]
+         "Bee2V/C05/PropsDiv.lean", "Bee2V/C05/PropsGcd.lean", "Bee2V/C05/PropsAlias.lean",
+         "Bee2V/C05/PropsPp.lean", "Bee2V/C05/PropsRed.lean", "Bee2V/C05/PropsEtc.lean"]
 
 # ----------------------------------------------------------------------------- helpers
 
